@@ -508,18 +508,13 @@ Qed.
 Lemma imap_inv_nil : imap_inv [].
 Proof. split; [constructor|intros k v []]. Qed.
 
-Lemma calc_imports_inv : forall specs, imap_inv (calc_imports specs).
+Lemma calc_handler_inv : forall specs, imap_inv (ih_imports (calc_handler specs)).
 Proof.
-  intros specs. unfold calc_imports.
-  assert (G : forall L m, imap_inv m ->
-    imap_inv (fold_left (fun m s => match s with
-                        | (path, alias, ispkg) =>
-                            imap_set path {| im_alias := alias; im_path := path;
-                                             im_alias_is_pkg := ispkg; im_inuse := false |} m
-                        end) L m)).
-  { induction L as [|[[path alias] ispkg] L IH]; intros m Hm; cbn [fold_left]; [exact Hm|].
-    apply IH. apply imap_set_inv; [exact Hm|reflexivity]. }
-  apply G, imap_inv_nil.
+  intros specs. unfold calc_handler.
+  assert (G : forall L h, imap_inv (ih_imports h) -> imap_inv (ih_imports (fold_left calc_step L h))).
+  { induction L as [|[[path alias] ispkg] L IH]; intros h Hh; cbn [fold_left]; [exact Hh|].
+    apply IH. cbn [calc_step ih_imports]. apply imap_set_inv; [exact Hh|reflexivity]. }
+  apply G. cbn [ih_imports]. apply imap_inv_nil.
 Qed.
 
 Lemma imap_get_in : forall k m d, imap_get k m = Some d -> In (k, d) m.
@@ -540,16 +535,15 @@ Proof.
   - apply imap_set_inv; [exact Hm|reflexivity].
 Qed.
 
+(* sort.Slice less of GetActive: PkgPath, then Alias *)
 Lemma import_lt_tie : forall a b, import_lt a b = false -> import_lt b a = false ->
-  im_path a = im_path b.
-Proof. intros a b. unfold import_lt. apply str_lt_total. Qed.
-
-Lemma imap_vals_path_nodup : forall m, imap_inv m -> NoDup (map im_path (map snd m)).
+  im_path a = im_path b /\ im_alias a = im_alias b.
 Proof.
-  intros m [ND Hp]. rewrite map_map.
-  assert (E : map (fun x => im_path (snd x)) m = map fst m).
-  { apply map_ext_in. intros [k v] Hin. cbn [fst snd]. apply Hp, Hin. }
-  rewrite E. exact ND.
+  intros a b H1 H2. unfold import_lt in *.
+  rewrite (String.eqb_sym (im_path b) (im_path a)) in H2.
+  destruct (String.eqb (im_path a) (im_path b)) eqn:E.
+  - apply String.eqb_eq in E. split; [exact E|]. apply str_lt_total; assumption.
+  - exfalso. apply String.eqb_neq in E. apply E. apply str_lt_total; assumption.
 Qed.
 
 Lemma filter_map_nodup : forall A B (key : A -> B) (f : A -> bool) l,
@@ -563,19 +557,221 @@ Proof.
   apply filter_In in Hy. destruct Hy as [Hy _]. rewrite <- Ey. apply in_map, Hy.
 Qed.
 
-Lemma get_active_indep : forall m, imap_inv m ->
+(* --- UseName: flag writes through the map, in map order ---------------------------------- *)
+
+(* a write to a key the map has, keys pairwise distinct: replace that entry in place *)
+Definition set_entry (k : string) (v : import_desc) (e : string * import_desc)
+  : string * import_desc := if String.eqb (fst e) k then (k, v) else e.
+
+Lemma set_entry_notin : forall k v r, ~ In k (map fst r) -> map (set_entry k v) r = r.
+Proof.
+  intros k v. induction r as [|e r IH]; intros H; [reflexivity|].
+  cbn [map]. rewrite IH; [|intros K; apply H; right; exact K].
+  unfold set_entry. destruct (String.eqb (fst e) k) eqn:E; [|reflexivity].
+  exfalso. apply H. left. apply String.eqb_eq. exact E.
+Qed.
+
+Lemma imap_set_as_map : forall k v m,
+  NoDup (map fst m) -> In k (map fst m) -> imap_set k v m = map (set_entry k v) m.
+Proof.
+  intros k v. induction m as [|[k' v0] r IH]; intros ND Hin; [destruct Hin|].
+  cbn [map fst] in ND. inversion ND as [|? ? Hnin ND']; subst.
+  cbn [imap_set map]. unfold set_entry at 1. cbn [fst].
+  destruct (String.eqb k' k) eqn:E.
+  - apply String.eqb_eq in E. subst k'. rewrite set_entry_notin; [reflexivity|exact Hnin].
+  - f_equal. apply IH; [exact ND'|]. destruct Hin as [Hin|Hin]; [|exact Hin].
+    cbn [fst] in Hin. subst k'. rewrite String.eqb_refl in E. discriminate.
+Qed.
+
+Lemma set_entry_keys : forall k v m, map fst (map (set_entry k v) m) = map fst m.
+Proof.
+  intros k v m. rewrite map_map. apply map_ext. intros e. unfold set_entry.
+  destruct (String.eqb (fst e) k) eqn:E; [|reflexivity].
+  apply String.eqb_eq in E. cbn [fst]. symmetry. exact E.
+Qed.
+
+Lemma set_entry_comm : forall k1 v1 k2 v2 e, k1 <> k2 ->
+  set_entry k1 v1 (set_entry k2 v2 e) = set_entry k2 v2 (set_entry k1 v1 e).
+Proof.
+  intros k1 v1 k2 v2 e Hne. unfold set_entry.
+  destruct (String.eqb (fst e) k2) eqn:E2, (String.eqb (fst e) k1) eqn:E1; cbn [fst];
+    rewrite ?E1, ?E2, ?String.eqb_refl.
+  - apply String.eqb_eq in E1, E2. exfalso. apply Hne. congruence.
+  - destruct (String.eqb k2 k1) eqn:E; [|reflexivity].
+    apply String.eqb_eq in E. exfalso. apply Hne. symmetry. exact E.
+  - destruct (String.eqb k1 k2) eqn:E; [|reflexivity].
+    apply String.eqb_eq in E. exfalso. apply Hne. exact E.
+  - reflexivity.
+Qed.
+
+(* the loop body of UseName *)
+Definition use_step (name : string) (m : imap) (kv : string * import_desc) : imap :=
+  if String.eqb (im_alias (snd kv)) name then imap_set (fst kv) (mark_used (snd kv)) m else m.
+(* its net effect on one entry *)
+Definition use_entry (name : string) (kv : string * import_desc) : string * import_desc :=
+  (fst kv, if String.eqb (im_alias (snd kv)) name then mark_used (snd kv) else snd kv).
+
+(* a fold whose steps commute on the states that can arise does not depend on the order *)
+Lemma fold_left_perm_inv : forall A B (f : B -> A -> B) (P : B -> Prop) (l : list A),
+  (forall b x, P b -> In x l -> P (f b x)) ->
+  (forall b x y, P b -> In x l -> In y l -> f (f b x) y = f (f b y) x) ->
+  forall l1 l2, Permutation l1 l2 -> (forall x, In x l1 -> In x l) ->
+  forall b, P b -> fold_left f l1 b = fold_left f l2 b.
+Proof.
+  intros A B f P l Hp Hc l1 l2 HP.
+  induction HP as [|x l1 l2 HP IH|x y l0|l1 l2 l3 HP1 IH1 HP2 IH2]; intros Hin b Hb.
+  - reflexivity.
+  - cbn [fold_left]. apply IH.
+    + intros z Hz. apply Hin. right. exact Hz.
+    + apply Hp; [exact Hb|apply Hin; left; reflexivity].
+  - cbn [fold_left]. rewrite Hc; [reflexivity|exact Hb| |].
+    + apply Hin. left. reflexivity.
+    + apply Hin. right. left. reflexivity.
+  - rewrite IH1; [|exact Hin|exact Hb]. apply IH2; [|exact Hb].
+    intros z Hz. apply Hin. apply (Permutation_in _ (Permutation_sym HP1)). exact Hz.
+Qed.
+
+Lemma use_step_keys : forall name m0 b x,
+  NoDup (map fst m0) -> map fst b = map fst m0 -> In x m0 ->
+  map fst (use_step name b x) = map fst m0.
+Proof.
+  intros name m0 b x ND Hb Hx. unfold use_step.
+  destruct (String.eqb (im_alias (snd x)) name); [|exact Hb].
+  rewrite imap_set_as_map.
+  - rewrite set_entry_keys. exact Hb.
+  - rewrite Hb. exact ND.
+  - rewrite Hb. apply in_map, Hx.
+Qed.
+
+Lemma use_step_comm : forall name m0 b x y,
+  NoDup (map fst m0) -> map fst b = map fst m0 -> In x m0 -> In y m0 ->
+  use_step name (use_step name b x) y = use_step name (use_step name b y) x.
+Proof.
+  intros name m0 b x y ND Hb Hx Hy.
+  destruct (String.eqb (fst x) (fst y)) eqn:E.
+  - apply String.eqb_eq in E.
+    assert (x = y) by (apply (nodup_key_inj _ _ fst m0); assumption). subst y. reflexivity.
+  - apply String.eqb_neq in E.
+    pose proof (use_step_keys name m0 b x ND Hb Hx) as Kx.
+    pose proof (use_step_keys name m0 b y ND Hb Hy) as Ky.
+    unfold use_step in *.
+    destruct (String.eqb (im_alias (snd x)) name), (String.eqb (im_alias (snd y)) name);
+      try reflexivity.
+    assert (NDb : NoDup (map fst b)) by (rewrite Hb; exact ND).
+    assert (Ix : In (fst x) (map fst b)) by (rewrite Hb; apply in_map, Hx).
+    assert (Iy : In (fst y) (map fst b)) by (rewrite Hb; apply in_map, Hy).
+    rewrite (imap_set_as_map (fst x) _ b NDb Ix) in *.
+    rewrite (imap_set_as_map (fst y) _ b NDb Iy) in *.
+    rewrite imap_set_as_map; [|rewrite Kx; exact ND|rewrite Kx; apply in_map, Hy].
+    rewrite imap_set_as_map; [|rewrite Ky; exact ND|rewrite Ky; apply in_map, Hx].
+    rewrite !map_map. apply map_ext. intros e. apply set_entry_comm.
+    intros K. apply E. symmetry. exact K.
+Qed.
+
+Lemma imap_set_skip : forall k v v0 P r, ~ In k (map fst P) ->
+  imap_set k v (P ++ (k, v0) :: r) = P ++ (k, v) :: r.
+Proof.
+  intros k v v0. induction P as [|[k' v'] P IH]; intros r H.
+  - cbn [app imap_set]. rewrite String.eqb_refl. reflexivity.
+  - cbn [app imap_set]. destruct (String.eqb k' k) eqn:E.
+    + exfalso. apply H. left. apply String.eqb_eq. exact E.
+    + f_equal. apply IH. intros K. apply H. right. exact K.
+Qed.
+
+(* in the map's own order: entry after entry *)
+Lemma use_fold_self : forall name L P, NoDup (map fst (P ++ L)) ->
+  fold_left (use_step name) L (P ++ L) = P ++ map (use_entry name) L.
+Proof.
+  intros name. induction L as [|[k v] L IH]; intros P ND; [reflexivity|].
+  cbn [fold_left map].
+  assert (Hk : ~ In k (map fst P)).
+  { rewrite map_app in ND. cbn [map fst] in ND. apply NoDup_remove_2 in ND.
+    intros K. apply ND. apply in_or_app. left. exact K. }
+  assert (E : use_step name (P ++ (k, v) :: L) (k, v) = (P ++ [use_entry name (k, v)]) ++ L).
+  { unfold use_step, use_entry. cbn [fst snd]. rewrite <- app_assoc. cbn [app].
+    destruct (String.eqb (im_alias v) name); [|reflexivity].
+    apply imap_set_skip. exact Hk. }
+  rewrite E. rewrite IH.
+  - rewrite <- app_assoc. reflexivity.
+  - rewrite <- app_assoc. cbn [app]. rewrite map_app in *. cbn [map] in *. exact ND.
+Qed.
+
+Lemma use_fold_canon : forall pi name m, NoDup (map fst m) -> iter_ok pi ->
+  fold_left (use_step name) (pi m) m = map (use_entry name) m.
+Proof.
+  intros pi name m ND Hpi.
+  rewrite (fold_left_perm_inv _ _ (use_step name) (fun b => map fst b = map fst m) m) with (l2 := m).
+  - apply (use_fold_self name m []). exact ND.
+  - intros b x Hb Hx. apply use_step_keys; assumption.
+  - intros b x y Hb Hx Hy. apply (use_step_comm name m); assumption.
+  - apply Hpi.
+  - intros x Hx. apply (Permutation_in _ (Hpi m)). exact Hx.
+  - reflexivity.
+Qed.
+
+Lemma use_name_canon : forall pi name h, imap_inv (ih_imports h) -> iter_ok pi ->
+  ih_imports (use_name pi name h) =
+  map (fun kv => (fst kv, if String.eqb (im_alias (snd kv)) name then mark_used (snd kv)
+                          else snd kv)) (ih_imports h).
+Proof.
+  intros pi name h [ND _] Hpi. unfold use_name. cbn [ih_imports].
+  exact (use_fold_canon pi name (ih_imports h) ND Hpi).
+Qed.
+
+Lemma use_name_indep : forall pi pi' name h, imap_inv (ih_imports h) -> iter_ok pi ->
+  iter_ok pi' -> use_name pi name h = use_name pi' name h.
+Proof.
+  intros pi pi' name h Hh H1 H2.
+  pose proof (use_name_canon pi name h Hh H1) as E1.
+  pose proof (use_name_canon pi' name h Hh H2) as E2.
+  unfold use_name in *. cbn [ih_imports] in E1, E2. rewrite E1, E2. reflexivity.
+Qed.
+
+Lemma use_name_inv : forall pi name h, imap_inv (ih_imports h) -> iter_ok pi ->
+  imap_inv (ih_imports (use_name pi name h)).
+Proof.
+  intros pi name h Hh Hpi. rewrite (use_name_canon pi name h Hh Hpi).
+  destruct Hh as [ND Hp]. split.
+  - rewrite map_map. cbn [fst]. exact ND.
+  - intros k v Hin. apply in_map_iff in Hin. destruct Hin as [[k0 v0] [E Hin]].
+    cbn [fst snd] in E. injection E as <- <-. specialize (Hp k0 v0 Hin).
+    destruct (String.eqb (im_alias v0) name); [|exact Hp]. cbn [mark_used im_path]. exact Hp.
+Qed.
+
+(* --- GetActive ---------------------------------------------------------------------------- *)
+
+Lemma get_active_indep : forall h,
+  (forall a b, In a (map snd (ih_imports h) ++ ih_shadowed h) ->
+               In b (map snd (ih_imports h) ++ ih_shadowed h) ->
+               im_path a = im_path b -> im_alias a = im_alias b -> a = b) ->
   forall pi pi' srt srt', iter_ok pi -> iter_ok pi' ->
   sort_ok import_lt srt -> sort_ok import_lt srt' ->
-  get_active pi srt m = get_active pi' srt' m.
+  get_active pi srt h = get_active pi' srt' h.
 Proof.
-  intros m Hm pi pi' srt srt' H1 H2 S1 S2. unfold get_active.
-  apply (sort_by_key_unique _ _ im_path import_lt); try assumption.
-  - apply filter_perm, Permutation_map, iter_perm; assumption.
-  - apply filter_map_nodup.
-    apply (Permutation_NoDup (l := map im_path (map snd m))).
-    + apply Permutation_map, Permutation_map, Permutation_sym, H1.
-    + apply imap_vals_path_nodup, Hm.
-  - exact import_lt_tie.
+  intros h Hu pi pi' srt srt' H1 H2 S1 S2. unfold get_active.
+  apply (sort_choice_unique _ import_lt); try assumption.
+  - apply Permutation_app_tail, filter_perm, Permutation_map, iter_perm; assumption.
+  - assert (M : forall a, In a (filter im_inuse (map snd (pi (ih_imports h))) ++
+                               filter im_inuse (ih_shadowed h)) ->
+                          In a (map snd (ih_imports h) ++ ih_shadowed h)).
+    { intros a Ha. apply in_app_or in Ha. apply in_or_app. destruct Ha as [Ha|Ha].
+      - left. apply filter_In in Ha. destruct Ha as [Ha _].
+        apply (Permutation_in _ (Permutation_map snd (H1 (ih_imports h)))). exact Ha.
+      - right. apply filter_In in Ha. apply Ha. }
+    intros a b Ha Hb E1 E2. destruct (import_lt_tie a b E1 E2) as [Ep Ea].
+    apply Hu; try assumption; apply M; assumption.
+Qed.
+
+Lemma get_active_indep_nodup : forall h,
+  NoDup (map (fun d => (im_path d, im_alias d)) (map snd (ih_imports h) ++ ih_shadowed h)) ->
+  forall pi pi' srt srt', iter_ok pi -> iter_ok pi' ->
+  sort_ok import_lt srt -> sort_ok import_lt srt' ->
+  get_active pi srt h = get_active pi' srt' h.
+Proof.
+  intros h ND. apply get_active_indep. intros a b Ha Hb Ep Ea.
+  apply (nodup_key_inj _ _ (fun d => (im_path d, im_alias d))
+           (map snd (ih_imports h) ++ ih_shadowed h)); try assumption.
+  cbn beta. rewrite Ep, Ea. reflexivity.
 Qed.
 
 (* ------------------------------------------------------------------------------------
@@ -752,8 +948,6 @@ Qed.
 
 Lemma trait_lt_swo : swo trait_lt.
 Proof. exact (swo_proj td_name str_lt str_lt_swo). Qed.
-Lemma import_lt_swo : swo import_lt.
-Proof. exact (swo_proj im_path str_lt str_lt_swo). Qed.
 Lemma efield_lt_swo : swo efield_lt.
 Proof. exact (swo_proj ef_name str_lt str_lt_swo). Qed.
 
@@ -775,6 +969,27 @@ Proof.
     destruct H1 as [A1 A2]. destruct H2 as [B1 B2].
     destruct (desc_lt_tie a b A1 A2) as [Ta Sa]. destruct (desc_lt_tie b c B1 B2) as [Tb Sb].
     apply eqv_true_iff. unfold desc_lt. rewrite <- Tb, <- Ta, <- Sb, <- Sa.
+    rewrite String.eqb_refl. split; apply str_lt_irrefl.
+Qed.
+
+Lemma import_lt_swo : swo import_lt.
+Proof.
+  constructor.
+  - intros a. unfold import_lt. rewrite String.eqb_refl. apply str_lt_irrefl.
+  - intros a b c. unfold import_lt.
+    destruct (String.eqb (im_path a) (im_path b)) eqn:E1.
+    + apply String.eqb_eq in E1. rewrite E1.
+      destruct (String.eqb (im_path b) (im_path c)); [|intros _ H; exact H].
+      apply (swo_trans _ str_lt_swo).
+    + destruct (String.eqb (im_path b) (im_path c)) eqn:E2.
+      * apply String.eqb_eq in E2. rewrite <- E2, E1. intros H _. exact H.
+      * intros H1 H2. pose proof (swo_trans _ str_lt_swo _ _ _ H1 H2) as H3.
+        destruct (String.eqb (im_path a) (im_path c)) eqn:E3; [|exact H3].
+        apply String.eqb_eq in E3. rewrite E3 in H3. rewrite str_lt_irrefl in H3. discriminate.
+  - intros a b c H1 H2. apply eqv_true_iff in H1, H2.
+    destruct H1 as [A1 A2]. destruct H2 as [B1 B2].
+    destruct (import_lt_tie a b A1 A2) as [Pa Aa]. destruct (import_lt_tie b c B1 B2) as [Pb Ab].
+    apply eqv_true_iff. unfold import_lt. rewrite <- Pb, <- Pa, <- Ab, <- Aa.
     rewrite String.eqb_refl. split; apply str_lt_irrefl.
 Qed.
 
